@@ -29,41 +29,6 @@ theorem not_expired_of_fresh {ttl : Nat} {now : Int} {t : Nat} (h : Fresh ttl no
   · omega
   · omega
 
-theorem finishRecover_effs {sh : Shape} {D : Decoders} {r : ReqObs} {st cid : Bytes} {e : CacheEntry} {hit : Bool}
-    {effs0 effs : List Effect} {x : Reject}
-    (h : finishRecover sh D r st cid e hit effs0 = (effs, .reject x)) :
-    effs = effs0 ∧ x = .method ∧ e.method ≠ r.method := by
-  unfold finishRecover at h
-  split at h
-  · rename_i hc
-    simp only [Prod.mk.injEq, Res.reject.injEq] at h
-    refine ⟨h.1.symm, h.2.symm, ?_⟩
-    simp only [Bool.and_eq_true, bne_iff_ne] at hc
-    exact hc.2
-  · simp only [Prod.mk.injEq] at h
-    obtain ⟨_, h2⟩ := h
-    split at h2 <;> cases h2
-
-theorem finishRecover_not_missing {sh : Shape} {D : Decoders} {r : ReqObs} {st cid : Bytes} {e : CacheEntry} {hit : Bool}
-    {effs0 effs : List Effect} : finishRecover sh D r st cid e hit effs0 ≠ (effs, .missingCall) := by
-  unfold finishRecover
-  split
-  · simp
-  · intro h
-    simp only [Prod.mk.injEq] at h
-    obtain ⟨_, h2⟩ := h
-    split at h2 <;> cases h2
-
-theorem finishRecover_not_crash {sh : Shape} {D : Decoders} {r : ReqObs} {st cid : Bytes} {e : CacheEntry} {hit : Bool}
-    {effs0 effs : List Effect} : finishRecover sh D r st cid e hit effs0 ≠ (effs, .crash) := by
-  unfold finishRecover
-  split
-  · simp
-  · intro h
-    simp only [Prod.mk.injEq] at h
-    obtain ⟨_, h2⟩ := h
-    split at h2 <;> cases h2
-
 end Aux
 
 /-! ### the model follows the source (shapes) -/
@@ -77,12 +42,13 @@ theorem sites_as_modelled :
       (Reject.all.map Reject.site).take 15 ++
       ["_resolve_call_from_token#0", "_resolve_call_from_token#1", "_resolve_call_from_token#2",
        "_resolve_call_from_token#3", "_resolve_call_from_token#4", "_resolve_call_from_token#5",
-       "_unpack_and_recover_state#0", "_unpack_and_recover_state#1"] := by decide
+       "_unpack_and_recover_state#0", "_unpack_and_recover_state#1", "_unpack_and_recover_state#2"] := by decide
 
 /-- resolution order of `_unpack_and_recover_state` / `_resolve_call_from_token` as modelled by `recoverObs` -/
 theorem order_as_modelled :
     Token.recoverOrder = ["open_cursor", "cache_get", "resolve_call_from_token", "cache_put", "method_check",
-      "resolve_state_cls", "deserialize_state", "bind_call_state", "rehydrate"] ∧
+      "hit_type_check", "resolve_state_cls", "deserialize_state", "bind_call_state", "rehydrate"] ∧
+    Token.recoverBranches = ["miss:resolve_call_from_token", "miss:cache_put", "hit:method_check", "hit:hit_type_check"] ∧
     Token.resolveCallOrder = ["missing_check", "open_call", "pairing_check", "read_schema", "read_schema",
       "deserialize_call_state"] ∧
     Token.ttlShapeRecognised = true ∧ Token.b64Validate = true ∧ Token.headerLen = Token.lenFmtWidth ∧
@@ -144,7 +110,7 @@ theorem frame_roundtrip_call (sh : Shape) (E : Wire) (z : Zstd) (hE : E.Lawful) 
   rw [unpackCallPlain_pack km.t km.callId km.body w1 w3]
   simp only
   unfold packCallPlain
-  rw [ttlCheck_packed _ _ _ _ _ w2, if_neg (Aux.not_expired_of_fresh hf)]
+  rw [callTtlCheck_packed _ _ _ _ w2, if_neg (Aux.not_expired_of_fresh hf)]
 
 /-- an expired minted token is rejected (TTL edge: age `ttl` is served, age `ttl + 1` is not) -/
 theorem expired_rejected (strict : Bool) (E : Wire) (z : Zstd) (hE : E.Lawful) (hz : z.Lawful) (key : KeyId)
@@ -207,7 +173,7 @@ theorem open_total (strict : Bool) (z : Zstd) (key : KeyId) (a : Bytes) (ttl : N
           rcases unpackCallPlain_total plain with ⟨x, hc⟩ | ⟨r, hc⟩
           · rw [hc]; simp only
             have hl := unpackCallPlain_ok_len hc
-            rcases ttlCheck_total .callExpired plain ttl now (by tok_consts; omega) with ht | ht
+            rcases callTtlCheck_total plain ttl now (by tok_consts; omega) with ht | ht
             · rw [ht]; exact Or.inl ⟨_, rfl⟩
             · rw [ht]; exact Or.inr ⟨_, rfl⟩
           · rw [hc]; exact Or.inr ⟨_, rfl⟩
@@ -271,6 +237,14 @@ theorem C12_order (sh : Shape) (E : Wire) (z : Zstd) (D : Decoders) (srv : Serve
     (effs : List Effect) (res : Res Accepted)
     (h : recover sh E z D srv cache r = (effs, res)) (hrej : (∃ x, res = .reject x) ∨ res = .missingCall) :
     effs = [] := by
+  have fin : ∀ st cid e hit effs0, finishRecover D st cid e hit effs0 = (effs, res) → False := by
+    intro st cid e hit effs0 hf
+    unfold finishRecover at hf
+    simp only [Prod.mk.injEq] at hf
+    obtain ⟨_, h2⟩ := hf
+    rcases hrej with ⟨x, hx⟩ | hx
+    · subst hx; split at h2 <;> cases h2
+    · subst hx; split at h2 <;> cases h2
   unfold recover recoverObs at h
   cases hc : openCursorObs sh.strictB64 z srv.key (aad (r.observe E).who) srv.ttl (r.observe E).now (r.observe E).cursor with
   | ok x =>
@@ -279,38 +253,15 @@ theorem C12_order (sh : Shape) (E : Wire) (z : Zstd) (D : Decoders) (srv : Serve
     cases hl : cache cid (cacheIdent (r.observe E).who) with
     | some e =>
       rw [hl] at h; simp only at h
-      rcases hrej with ⟨x, hx⟩ | hx
-      · subst hx; exact (Aux.finishRecover_effs h).1
-      · subst hx; exact absurd h Aux.finishRecover_not_missing
+      split at h
+      · simp only [Prod.mk.injEq] at h; exact h.1.symm
+      · split at h
+        · simp only [Prod.mk.injEq] at h; exact h.1.symm
+        · exact (fin _ _ _ _ _ h).elim
     | none =>
       rw [hl] at h; simp only at h
       cases hr : resolveCallFromToken sh z D srv (r.observe E) cid with
-      | ok e =>
-        rw [hr] at h; simp only at h
-        -- on the miss path the entry is built for this very method: the method check cannot fail
-        have hm : e.method = (r.observe E).method := by
-          unfold resolveCallFromToken at hr
-          cases hcall : (r.observe E).call with
-          | none => rw [hcall] at hr; cases hr
-          | some co =>
-            rw [hcall] at hr; simp only at hr
-            cases ho : openCallObs sh.strictB64 z srv.key (callAad sh.methodBound (r.observe E).method (r.observe E).who)
-                srv.ttl (r.observe E).now co with
-            | ok y =>
-              obtain ⟨c', b'⟩ := y
-              rw [ho] at hr; simp only at hr
-              split at hr
-              · cases hr
-              · split at hr
-                · cases hr; rfl
-                · cases hr
-            | reject _ => rw [ho] at hr; cases hr
-            | missingCall => rw [ho] at hr; cases hr
-            | decodeError => rw [ho] at hr; cases hr
-            | crash => rw [ho] at hr; cases hr
-        rcases hrej with ⟨x, hx⟩ | hx
-        · subst hx; exact absurd hm (Aux.finishRecover_effs h).2.2
-        · subst hx; exact absurd h Aux.finishRecover_not_missing
+      | ok e => rw [hr] at h; simp only at h; exact (fin _ _ _ _ _ h).elim
       | reject _ => rw [hr] at h; simp only [Prod.mk.injEq] at h; exact h.1.symm
       | missingCall => rw [hr] at h; simp only [Prod.mk.injEq] at h; exact h.1.symm
       | decodeError => rw [hr] at h; simp only [Prod.mk.injEq] at h; exact h.1.symm
@@ -348,7 +299,7 @@ def body : CallBody := ⟨[], [], [1], [2], [3]⟩
 def km : CallMint := ⟨.anonymous, "gen".toList, List.replicate 16 7, 100, body, 0⟩
 def cm : CursorMint := ⟨.anonymous, "gen".toList, List.replicate 16 7, 100, [9, 9], 1⟩
 def E : Wire := ⟨fun t => if t = cm.tok z 1 then [65] else [66], fun w => if w = [65] then some (cm.tok z 1) else none⟩
-def D : Decoders := ⟨fun _ => true, fun _ => true⟩
+def D : Decoders := ⟨fun _ => true, fun _ => true, fun _ => true⟩
 def srv : Server := ⟨1, 3600⟩
 def W : World :=
   { cursors := [cm] ++ World.empty.cursors, calls := km :: World.empty.calls,
